@@ -396,8 +396,10 @@ wrapint wrapint::ashr(wrapint x) const {
     // fill blanks with 1's
     uint64_t all_ones =
         (_width < 64 ? ((uint64_t)1 << (uint64_t)_width) - 1 : UINT64_MAX);
-    // 1110..0
-    uint64_t only_upper_bits_ones = all_ones << (uint64_t)(_width - x._n);
+    // 1110..0: the x._n uppermost bits of the _width-bit word (all of
+    // them if x._n >= _width). Shifting all_ones to the left would leave
+    // ones above the bitwidth and shift by 64 bits if x._n is zero.
+    uint64_t only_upper_bits_ones = all_ones ^ (all_ones >> x._n);
     return wrapint(only_upper_bits_ones | (_n >> x._n), _width, _mod);
   }
 }
